@@ -120,7 +120,10 @@ func opCborDec(args []Sx) Sx {
 		case "bytes":
 			var b []byte
 			b, err = d.DecodeByteString()
-			v = B(b)
+			if b == nil {
+				b = []byte{}
+			}
+			v = Sx{K: 1, B: b} // NOT copied: the value is looked at after the later calls and after the source was overwritten
 		case "text":
 			var s string
 			s, err = d.DecodeTextString()
